@@ -100,6 +100,9 @@ Section Spec.
   Definition spec_step (hon : bool) (j : jar) (lg : logins) (o : op) (ev : event) : bool :=
     match o, ev with
     | OStart s _, EvAuth cs base ps => auth_ok s cs base ps
+    (* a state the cookie cannot hold: no redirect is fine; a redirect must still bind that state *)
+    | OStartFail s, EvAuth cs base ps => auth_ok s cs base ps
+    | OStartFail _, EvOther => true
     | OCallback q _ _, EvCb h reqs _ => cb_ok hon j lg q h reqs
     | OSet _ _, EvNone => true
     | ODel _, EvNone => true
@@ -192,6 +195,7 @@ Definition path (i : input) (o : observed) : nat :=
       let classes := map (fun t => match t with
                                    | (j, _, OCallback q _ _, ev) => cb_class cfg j q ev
                                    | (_, _, OStart _ _, _) => 10
+                                   | (_, _, OStartFail _, _) => 10
                                    | _ => 0 end) tr in
       let mx := fold_left Nat.max classes 0 in
       let passed := List.length (filter (fun c => andb (5 <=? c) (c <=? 9)) classes) in
